@@ -237,13 +237,13 @@ theorem stmt_semF {ctx : Ctx} {T : List FEntry} {B : Nat} (hT : TableOK T) (hctx
     obtain ⟨_, s4, h4, h⟩ := bind_ok h
     obtain ⟨_, s5, h5, h⟩ := bind_ok h
     obtain ⟨_, s6, h6, h7⟩ := bind_ok h
-    obtain ⟨newc, nc, e1, simc⟩ := expr_semF hT hctx cond s c s1 hfc hc h1
+    obtain ⟨newc, nc, rc, e1, simc⟩ := expr_semF hT hctx cond s c s1 hfc hc h1
     subst e1
     have simc1 := esim_first simc
-    have hc1 : ctxOf (adv s newc nc) = ctx := hc
+    have hc1 : ctxOf (reqSt (adv s newc nc) rc) = ctx := hc
     rw [evalConds_eq_args] at h2
     have hfe' : fragEs (tnames T) (elifs.map Prod.fst) = true := fragEl_conds elifs hfe
-    obtain ⟨newe, ne, e2, sime⟩ := args_semF hT hctx (elifs.map Prod.fst) _ ecs s2 hfe' hc1 h2
+    obtain ⟨newe, ne, re, e2, sime⟩ := args_semF hT hctx (elifs.map Prod.fst) _ ecs s2 hfe' hc1 h2
     subst e2
     have e3 := addLine_ok (l := .ifStart "if" (firstValue c)) h3
     have hc3 : ctxOf s3 = ctx := by rw [e3]; exact hc
@@ -252,18 +252,18 @@ theorem stmt_semF {ctx : Ctx} {T : List FEntry} {B : Nat} (hT : TableOK T) (hctx
     have hc4 : ctxOf s4 = ctx := by rw [hb.ctx]; exact hc3
     have hB4 : B ≤ s4.forCounter := Nat.le_trans hB3 hb.forCounter
     have he := elifs_semF hT hctx elifs hfe ecs s4 s5 hc4 hB4 h5
-    obtain ⟨bc, nb, mb, e4, hlb, simb⟩ := hb
-    obtain ⟨tree, nt, mt, e5, hlt, simt⟩ := he
+    obtain ⟨bc, nb, mb, rb, e4, hlb, simb⟩ := hb
+    obtain ⟨tree, nt, mt, rt, e5, hlt, simt⟩ := he
     have hc5 : ctxOf s5 = ctx := by rw [e5]; exact hc4
-    have hB5 : B ≤ s5.forCounter := by rw [e5]; simp [adv2]; omega
+    have hB5 : B ≤ s5.forCounter := by rw [e5]; simp [adv2, reqSt]; omega
     have hl := else_semF hT hctx els hfl s5 s6 hc5 hB5 h6
-    obtain ⟨et, nl, ml, e6, hle, siml⟩ := hl
+    obtain ⟨et, nl, ml, rl, e6, hle, siml⟩ := hl
     have e7 := addLine_ok (l := .fi) h7
     refine ⟨(newc.reverse ++ newe.reverse).map Cmd.simple ++ [Cmd.ifc (.ifStart "if" (firstValue c)) bc tree et],
-      nc + ne + nb + nt + nl, mb + mt + ml, ?_, ?_, ?_⟩
+      nc + ne + nb + nt + nl, mb + mt + ml, (((rc.or re).or rb).or rt).or rl, ?_, ?_, ?_⟩
     · rw [e7, e6, e5, e4, e3]
       apply St.ext2 <;>
-        simp [adv, adv2, flats_append, flats_simples, flats_simples_reverse, flats, flat, Nat.add_assoc, List.reverse_append]
+        simp [adv, adv2, reqSt, Req.or, Bool.or_assoc, flats_append, flats_simples, flats_simples_reverse, flats, flat, Nat.add_assoc, List.reverse_append]
     · have h3f : s3.forCounter = s.forCounter := by rw [e3]; rfl
       have h4f : s4.forCounter = s3.forCounter + mb := by rw [e4]; rfl
       have h5f : s5.forCounter = s4.forCounter + mt := by rw [e5]; rfl
@@ -341,23 +341,23 @@ theorem stmt_semF {ctx : Ctx} {T : List FEntry} {B : Nat} (hT : TableOK T) (hctx
     have e2 := forStart_ok h2
     have hc2 : ctxOf s2 = ctx := by rw [e2]; exact hc1
     have hinc := incr_semF hT hctx incr hfn s2 s3 s1.forCounter s1.fors hc2 (by rw [e2]) (by rw [e2]; simp) (by rw [e2]; simp; omega) (by omega) h3
-    obtain ⟨ci, ni, mi, ei, hli, simi⟩ := hi
-    obtain ⟨P, np, mp, ep, hlP, simP, simP0⟩ := hinc
+    obtain ⟨ci, ni, mi, ri, ei, hli, simi⟩ := hi
+    obtain ⟨P, np, mp, rp, ep, hlP, simP, simP0⟩ := hinc
     have hc3 : ctxOf s3 = ctx := by rw [ep]; exact hc2
-    obtain ⟨newc, nc, e4, simc⟩ := expr_semF hT hctx cond s3 c s4 hfc hc3 h4
+    obtain ⟨newc, nc, rc, e4, simc⟩ := expr_semF hT hctx cond s3 c s4 hfc hc3 h4
     have simc1 := esim_first simc
     have e5 := addLine_ok (l := .forCond (firstValue c)) h5
     have hc5 : ctxOf s5 = ctx := by rw [e5, e4]; exact hc3
     have hs5f : s5.forCounter = s1.forCounter + 1 + mp := by rw [e5, e4, ep, e2]; rfl
     have hb := block_semF hT hctx body hfb s5 s6 hc5 (by omega) h6
-    obtain ⟨bc, nb, mb, eb, hlb, simb⟩ := hb
+    obtain ⟨bc, nb, mb, rb, eb, hlb, simb⟩ := hb
     have e7 := forEnd_ok h7
     refine ⟨ci ++ [Cmd.simple (.forFlagInit s1.forCounter),
         Cmd.loop (P ++ (newc.reverse.map Cmd.simple ++ (Cmd.simple (.forCond (firstValue c)) :: bc)))],
-      ni + np + nc + nb, mi + 1 + mp + mb, ?_, ?_, ?_⟩
+      ni + np + nc + nb, mi + 1 + mp + mb, ((ri.or rp).or rc).or rb, ?_, ?_, ?_⟩
     · rw [e7, eb, e5, e4, ep, e2, ei]
       apply St.ext2 <;>
-        simp [adv, adv2, flats_append, flats_simples, flats_simples_reverse, flats, flat, Nat.add_assoc, List.reverse_append]
+        simp [adv, adv2, reqSt, Req.or, Bool.or_assoc, flats_append, flats_simples, flats_simples_reverse, flats, flat, Nat.add_assoc, List.reverse_append]
     · have h1f : s1.forCounter = s.forCounter + mi := by rw [ei]; rfl
       have h2f : s2.forCounter = s1.forCounter + 1 := by rw [e2]
       rw [flats_append]
@@ -365,7 +365,7 @@ theorem stmt_semF {ctx : Ctx} {T : List FEntry} {B : Nat} (hT : TableOK T) (hctx
       simp only [flats, flat, List.append_nil, List.singleton_append]
       refine LinesOK.cons ⟨fun y hy => ?_, fun nm ar e' => (by cases e'), rfl⟩ (LinesOK.cons (sline_plain _ _ _ _ rfl rfl) ?_)
       · simp only [lineTargets, List.mem_singleton] at hy
-        exact Or.inr (Or.inr (Or.inr (Or.inr ⟨s1.forCounter, by omega, hy⟩)))
+        exact Or.inr (Or.inr (Or.inr (Or.inr (Or.inl ⟨s1.forCounter, by omega, hy⟩))))
       · rw [flats_append, flats_append, flats_simples]
         simp only [flats, flat, List.singleton_append]
         refine ((hlP.mono (by omega)).append (((simc.lines.reverse).mono (Nat.zero_le _)).append
@@ -397,7 +397,11 @@ theorem stmt_semF {ctx : Ctx} {T : List FEntry} {B : Nat} (hT : TableOK T) (hctx
           show (m1.ρ.set _ _) (flagName j) = _
           rw [Sem.set_other _ _ _ _ (fun e => by have := flagName_inj e; omega)]
           exact k1.flags j hBj hj
-  | .sliceAssign _ _ _ => simp [fragS] at hf
+  | .sliceAssign x index value =>
+    intro s s' hc hB h
+    unfold evalStmt at h
+    simp only [fragS, Bool.and_eq_true] at hf
+    exact sliceassign_semF hT hctx hf.1.1 hf.1.2 hf.2 hc h
   | .funcDef _ _ _ _ _ => simp [fragS] at hf
   | .expr (.boolLit _) | .expr (.intLit _) | .expr (.strLit _) | .expr (.varEval _) | .expr (.unary _ _ _)
   | .expr (.binary _ _ _) | .expr (.compare _ _ _) | .expr (.logical _ _ _) | .expr (.group _)
@@ -416,7 +420,7 @@ theorem opt_semF {ctx : Ctx} {T : List FEntry} {B : Nat} (hT : TableOK T) (hctx 
     intro s s' hc hB h
     unfold evalInit at h
     obtain ⟨_, es⟩ := pure_ok h
-    refine ⟨[], 0, 0, es, by simp [flats]; exact LinesOK.nil _ _ _, ?_⟩
+    refine ⟨[], 0, 0, Req.none, (by rw [es, reqSt_none]; rfl), by simp [flats]; exact LinesOK.nil _ _ _, ?_⟩
     intro fuel c o c' hs m hi
     simp only [srcIncrF, Option.some.injEq, Prod.mk.injEq] at hs
     obtain ⟨rfl, rfl⟩ := hs
@@ -424,7 +428,7 @@ theorem opt_semF {ctx : Ctx} {T : List FEntry} {B : Nat} (hT : TableOK T) (hctx 
 
 theorem incr_semF {ctx : Ctx} {T : List FEntry} {B : Nat} (hT : TableOK T) (hctx : CtxOK ctx T B) (incr : Option Stmt) (hf : fragO (tnames T) incr = true) :
     ∀ s s' n rest, ctxOf s = ctx → s.fors = n :: rest → n < s.forCounter → B ≤ s.forCounter → B ≤ n → evalIncr conv incr s = .ok ((), s') →
-      ∃ P nn mm, s' = adv2 s (flats P).reverse nn mm ∧ LinesOK ctx (s.forCounter + mm) (tnames T) (flats P) ∧ IncrStepF ctx T B incr P n ∧
+      ∃ P nn mm rq, s' = reqSt (adv2 s (flats P).reverse nn mm) rq ∧ LinesOK ctx (s.forCounter + mm) (tnames T) (flats P) ∧ IncrStepF ctx T B incr P n ∧
         (∀ c m, Inv ctx T c m → m.ρ (flagName n) = "" →
           ∃ m1, ExecCmds P m .normal m1 ∧ FlagOKF incr n m1.ρ ∧ Inv ctx T c m1 ∧ Ctl m m1 ∧ ∀ x, x ≠ flagName n → m1.ρ x = m.ρ x) := by
   match incr with
@@ -432,7 +436,7 @@ theorem incr_semF {ctx : Ctx} {T : List FEntry} {B : Nat} (hT : TableOK T) (hctx
     intro s s' n rest hc hfo hn hB hBn h
     unfold evalIncr at h
     obtain ⟨_, es⟩ := pure_ok h
-    refine ⟨[], 0, 0, es, by simp [flats]; exact LinesOK.nil _ _ _, ?_, ?_⟩
+    refine ⟨[], 0, 0, Req.none, (by rw [es, reqSt_none]; rfl), by simp [flats]; exact LinesOK.nil _ _ _, ?_, ?_⟩
     · intro fuel cb o c2 hs m hi hfl
       simp only [srcIncrF, Option.some.injEq, Prod.mk.injEq] at hs
       obtain ⟨rfl, rfl⟩ := hs
@@ -449,17 +453,17 @@ theorem incr_semF {ctx : Ctx} {T : List FEntry} {B : Nat} (hT : TableOK T) (hctx
     have hsi := stmt_semF hT hctx i (by simpa [fragO] using hf) s1 s2 hc1 (by rw [e1]; exact hB) h2
     have hfo2 : s2.fors = n :: rest := by rw [hsi.fors, e1]; exact hfo
     have e3 := forIncrementEnd_ok hfo2 h3
-    obtain ⟨ci, ni, mi, ei, hlci, simi⟩ := hsi
-    refine ⟨[Cmd.ifc (.incrStart n) ci [] none, Cmd.simple (.incrFlagSet n)], ni, mi, ?_, ?_, ?_, ?_⟩
+    obtain ⟨ci, ni, mi, ri, ei, hlci, simi⟩ := hsi
+    refine ⟨[Cmd.ifc (.incrStart n) ci [] none, Cmd.simple (.incrFlagSet n)], ni, mi, ri, ?_, ?_, ?_, ?_⟩
     · rw [e3, ei, e1]
-      apply St.ext2 <;> simp [adv2, flats, flat, flatElifs, flatElse]
+      apply St.ext2 <;> simp [adv2, reqSt, flats, flat, flatElifs, flatElse]
     · have h1f : s1.forCounter = s.forCounter := by rw [e1]
       simp only [flats, flat, flatElifs, flatElse, List.append_nil, List.nil_append]
       show LinesOK ctx (s.forCounter + mi) (tnames T) (Line.incrStart n :: ((flats ci ++ [Line.fi]) ++ [Line.incrFlagSet n]))
       refine LinesOK.cons (sline_plain _ _ _ _ rfl rfl) (LinesOK.append (LinesOK.append (hlci.mono (by omega)) (linesOK_plain1 _ _ _ _ rfl rfl)) ?_)
       refine LinesOK.cons ⟨fun y hy => ?_, fun nm ar e' => (by cases e'), rfl⟩ (LinesOK.nil _ _ _)
       simp only [lineTargets, List.mem_singleton] at hy
-      exact Or.inr (Or.inr (Or.inr (Or.inr ⟨n, by omega, hy⟩)))
+      exact Or.inr (Or.inr (Or.inr (Or.inr (Or.inl ⟨n, by omega, hy⟩))))
     · intro fuel cb o c2 hs m hi hfl
       have hs' : execS fuel i cb = some (o, c2) := hs
       obtain ⟨m4, o4, ex4, hr4, ho4, hk4, _⟩ := simi fuel cb o c2 hs' m hi
@@ -495,7 +499,7 @@ theorem block_semF {ctx : Ctx} {T : List FEntry} {B : Nat} (hT : TableOK T) (hct
     unfold evalBlock at h
     have h' : addLine .nop s = .ok ((), s') := h
     have e := addLine_ok h'
-    refine ⟨[Cmd.simple .nop], 0, 0, by rw [e]; simp [adv2, flats, flat], linesOK_simples (ls := [.nop]) (linesOK_plain1 _ _ _ _ rfl rfl), ?_⟩
+    refine ⟨[Cmd.simple .nop], 0, 0, Req.none, by rw [e, reqSt_none]; simp [adv2, flats, flat], linesOK_simples (ls := [.nop]) (linesOK_plain1 _ _ _ _ rfl rfl), ?_⟩
     intro fuel c o c' hs m hi
     cases fuel with
     | zero => simp [execSs] at hs
@@ -533,13 +537,13 @@ theorem stmts_semF {ctx : Ctx} {T : List FEntry} {B : Nat} (hT : TableOK T) (hct
 
 theorem else_semF {ctx : Ctx} {T : List FEntry} {B : Nat} (hT : TableOK T) (hctx : CtxOK ctx T B) (els : List Stmt) (hf : fragSs (tnames T) els = true) :
     ∀ s s', ctxOf s = ctx → B ≤ s.forCounter → evalElse conv els s = .ok ((), s') →
-      ∃ t n mm, s' = adv2 s (flatElse t).reverse n mm ∧ LinesOK ctx (s.forCounter + mm) (tnames T) (flatElse t) ∧ ElseSimF ctx T B els t s.forCounter := by
+      ∃ t n mm rq, s' = reqSt (adv2 s (flatElse t).reverse n mm) rq ∧ LinesOK ctx (s.forCounter + mm) (tnames T) (flatElse t) ∧ ElseSimF ctx T B els t s.forCounter := by
   match els with
   | [] =>
     intro s s' hc hB h
     unfold evalElse at h
     obtain ⟨_, es⟩ := pure_ok h
-    refine ⟨none, 0, 0, es, by simp [flatElse]; exact LinesOK.nil _ _ _, ?_⟩
+    refine ⟨none, 0, 0, Req.none, (by rw [es, reqSt_none]; rfl), by simp [flatElse]; exact LinesOK.nil _ _ _, ?_⟩
     intro fuel c o c' hs m hi
     cases fuel with
     | zero => simp [execSs] at hs
@@ -561,10 +565,10 @@ theorem else_semF {ctx : Ctx} {T : List FEntry} {B : Nat} (hT : TableOK T) (hctx
     obtain ⟨_, e4⟩ := pure_ok (a := ()) h4
     have hseq : StmtSemF ctx T B (fun f c => execSs f (st :: rest) c) s1 s3 :=
       stmtSemF_seq hs1 hs2 (fun _ _ _ _ h => execSs_cons_cases h)
-    obtain ⟨cs, n, mm, e, hlcs, sim⟩ := hseq
-    refine ⟨some cs, n, mm, ?_, ?_, ?_⟩
+    obtain ⟨cs, n, mm, rs, e, hlcs, sim⟩ := hseq
+    refine ⟨some cs, n, mm, rs, ?_, ?_, ?_⟩
     · rw [e4, e, e1]
-      apply St.ext2 <;> simp [adv2, flatElse]
+      apply St.ext2 <;> simp [adv2, reqSt, flatElse]
     · have h1f : s1.forCounter = s.forCounter := by rw [e1]
       simp only [flatElse]
       exact LinesOK.cons (sline_plain _ _ _ _ rfl rfl) (by rw [← h1f]; exact hlcs)
@@ -576,7 +580,7 @@ theorem else_semF {ctx : Ctx} {T : List FEntry} {B : Nat} (hT : TableOK T) (hctx
 
 theorem elifs_semF {ctx : Ctx} {T : List FEntry} {B : Nat} (hT : TableOK T) (hctx : CtxOK ctx T B) (elifs : List (Expr × List Stmt)) (hf : fragEl (tnames T) elifs = true) :
     ∀ ecs s s', ctxOf s = ctx → B ≤ s.forCounter → evalElifs conv elifs ecs s = .ok ((), s') →
-      ∃ tree n mm, s' = adv2 s (flatElifs tree).reverse n mm ∧ LinesOK ctx (s.forCounter + mm) (tnames T) (flatElifs tree) ∧
+      ∃ tree n mm rq, s' = reqSt (adv2 s (flatElifs tree).reverse n mm) rq ∧ LinesOK ctx (s.forCounter + mm) (tnames T) (flatElifs tree) ∧
         ∀ els elseT k0, s'.forCounter ≤ k0 → ElseSimF ctx T B els elseT k0 →
           ∀ fuel bs c o c', execEl fuel elifs bs els c = some (o, c') →
             ∀ m, Inv ctx T c m → GuardValsF ecs bs m.ρ →
@@ -587,7 +591,7 @@ theorem elifs_semF {ctx : Ctx} {T : List FEntry} {B : Nat} (hT : TableOK T) (hct
     intro ecs s s' hc hB h
     unfold evalElifs at h
     obtain ⟨_, es⟩ := pure_ok h
-    refine ⟨[], 0, 0, es, by simp [flatElifs]; exact LinesOK.nil _ _ _, ?_⟩
+    refine ⟨[], 0, 0, Req.none, (by rw [es, reqSt_none]; rfl), by simp [flatElifs]; exact LinesOK.nil _ _ _, ?_⟩
     intro els elseT k0 hk hsim fuel bs c o c' hs m hi _
     obtain ⟨f, hs'⟩ := src_el_nil hs
     obtain ⟨m', o', ex, hr, ho, hkk, hv⟩ := hsim f c o c' hs' m hi
@@ -600,7 +604,7 @@ theorem elifs_semF {ctx : Ctx} {T : List FEntry} {B : Nat} (hT : TableOK T) (hct
     | [] =>
       unfold evalElifs at h
       obtain ⟨_, es⟩ := pure_ok h
-      refine ⟨[], 0, 0, es, by simp [flatElifs]; exact LinesOK.nil _ _ _, ?_⟩
+      refine ⟨[], 0, 0, Req.none, (by rw [es, reqSt_none]; rfl), by simp [flatElifs]; exact LinesOK.nil _ _ _, ?_⟩
       intro els elseT k0 hk hsim fuel bs c o c' hs m hi hgv
       cases bs <;> simp [GuardValsF] at hgv
       -- no guard texts: the source chain has no values either, it runs the else part
@@ -626,11 +630,11 @@ theorem elifs_semF {ctx : Ctx} {T : List FEntry} {B : Nat} (hT : TableOK T) (hct
       have hc3 : ctxOf s3 = ctx := by rw [e3, hb.ctx]; exact hc1
       have hB3 : B ≤ s3.forCounter := by rw [e3]; exact Nat.le_trans (by rw [e1]; exact hB) hb.forCounter
       have hr := elifs_semF hT hctx rest hf.2 cs s3 s' hc3 hB3 h4
-      obtain ⟨bc, nb, mb, eb, hlb, simb⟩ := hb
-      obtain ⟨tree, nt, mt, et, hlt, simt⟩ := hr
-      refine ⟨(.ifStart "elif" t, bc) :: tree, nb + nt, mb + mt, ?_, ?_, ?_⟩
+      obtain ⟨bc, nb, mb, rb, eb, hlb, simb⟩ := hb
+      obtain ⟨tree, nt, mt, rt, et, hlt, simt⟩ := hr
+      refine ⟨(.ifStart "elif" t, bc) :: tree, nb + nt, mb + mt, rb.or rt, ?_, ?_, ?_⟩
       · rw [et, e3, eb, e1]
-        apply St.ext2 <;> simp [adv2, flatElifs, Nat.add_assoc, List.reverse_append]
+        apply St.ext2 <;> simp [adv2, reqSt, Req.or, Bool.or_assoc, flatElifs, Nat.add_assoc, List.reverse_append]
       · have h1f : s1.forCounter = s.forCounter := by rw [e1]
         have h3f : s3.forCounter = s1.forCounter + mb := by rw [e3, eb]; rfl
         simp only [flatElifs]
@@ -654,7 +658,7 @@ theorem elifs_semF {ctx : Ctx} {T : List FEntry} {B : Nat} (hT : TableOK T) (hct
               refine ⟨m', o', ExecElifs.miss hg ex, hr', ho, fun hne => ?_, hv⟩
               have k' := hkk hne
               refine ⟨k'.inv, k'.ctl, k'.flags.mono ?_⟩
-              rw [e3, eb, e1]; simp [adv2]
+              rw [e3, eb, e1]; simp [adv2, reqSt]
             · simp at hs
 end
 
